@@ -335,7 +335,9 @@ func (c *C18) changeOracle(in *hub.Instance, g *c18Ghost, pre c18Stored, boundar
 type c18GridCase struct {
 	Powers []int64
 	Low    []bool // validator i reports the low value (100) instead of the high one (300)
-	// holder-list cases: Holders[i] = 0 validator i reports nothing, 1 list L0, 2 list L2 (another list), 3 list L1 (L0 in another order)
+	// holder-list cases: Holders[i] = 0 validator i reports nothing, 1 list L0, 2 list L2 (another list), 3 list L1 (L0 in another order),
+	// 4 / 5 two one-entry lists whose addresses are the single bytes 0xfe / 0xff, 6 / 7 a two-entry list and a one-entry list whose
+	// address spells the first one's separator
 	Holders []int
 }
 
@@ -357,6 +359,8 @@ func c18HolderGridCases() []c18GridCase {
 			c18GridCase{Powers: []int64{10, 10, 10}, Holders: []int{1, 3, riv}}, // two thirds on one list in two orders
 			c18GridCase{Powers: []int64{10, 10, 9}, Holders: []int{1, 3, riv}})
 	}
+	out = append(out, c18GridCase{Powers: []int64{34, 33, 33}, Holders: []int{4, 5, 5}}, c18GridCase{Powers: []int64{33, 33, 34}, Holders: []int{5, 5, 4}})
+	out = append(out, c18GridCase{Powers: []int64{34, 33, 33}, Holders: []int{6, 7, 7}}, c18GridCase{Powers: []int64{33, 33, 34}, Holders: []int{7, 7, 6}})
 	return out
 }
 
@@ -367,7 +371,19 @@ func c18RunHolderGrid(in *hub.Instance, cs c18GridCase) (string, *engine.Violati
 	before := holdersCanon(in.Oracle.GetHolders(in.Ctx()))
 	var W int64
 	same := map[string]int64{}
-	list := func(code int) *oracletypes.Holders { return c18Holders([]int64{0, 2, 1}[code-1]) }
+	list := func(code int) *oracletypes.Holders {
+		switch code {
+		case 4, 5:
+			// two lists that differ in one byte which is not valid UTF-8 (text encoders replace both by U+FFFD)
+			return &oracletypes.Holders{List: []*oracletypes.Holder{{Address: string([]byte{0xfa + byte(code)}), Value: sdk.NewInt(5)}}}
+		case 6:
+			return &oracletypes.Holders{List: []*oracletypes.Holder{{Address: "0xaaaa", Value: sdk.NewInt(5)}, {Address: "0xbbbb", Value: sdk.NewInt(7)}}}
+		case 7:
+			// one entry whose free-form address contains the separators of a textual list encoding
+			return &oracletypes.Holders{List: []*oracletypes.Holder{{Address: `0xaaaa:5","0xbbbb`, Value: sdk.NewInt(7)}}}
+		}
+		return c18Holders([]int64{0, 2, 1}[code-1])
+	}
 	for i, v := range c.Vals {
 		W += cs.Powers[i]
 		if cs.Holders[i] == 0 || cs.Powers[i] == 0 {
